@@ -14,8 +14,10 @@ import SharkVerif.Lemmas.Hypervolume
 import SharkVerif.Lemmas.HV3D
 import SharkVerif.Lemmas.Contrib
 import SharkVerif.Model.Contrib3D
+import SharkVerif.Lemmas.DCFront
+import SharkVerif.Lemmas.RatLift
 namespace SharkVerif.C13
-open SharkVerif.Pareto SharkVerif.HV
+open SharkVerif.Pareto SharkVerif.HV SharkVerif.DC
 
 /-! ## Dominance -/
 
@@ -359,5 +361,90 @@ theorem contributionMD_fast_wfg (m : Nat) (S : List Pt) (r : Pt) (hS : ∀ p ∈
   contribsMD_fastSort_wfg m S r hS hr hle
 
 example : (List.range 3).map (contribSpec [[1, 2, 3], [2, 1, 3], [3, 3, 1]] [4, 4, 4]) = [2, 2, 2] := by decide
+
+/-! ## The divide-and-conquer sort and the front end `nonDominatedSort`
+
+Model: `Model/DCSort.lean` (`sweepA`, `sweepB`, `median2`, `splitA`, `splitB`, `helperA`, `helperB`, `dcSort`, `nds`:
+one definition per C++ member function).  Proof: `Lemmas/DCSweep.lean` (the two sweeps and the base cases against
+their specifications `ASpec`/`BSpec`), `Lemmas/DCSort.lean` (splits, recursion by induction on the depth budget),
+`Lemmas/DCFront.lean` (sort/unique/lower_bound front end). -/
+
+/-- **C13 (two-objective sweep `sweepA`)**: on index lists ordered lexicographically by the first two objectives
+(distinct projections) the sweep assigns `max(old front, 1 + highest final front of a 2-objective dominator in S)`. -/
+theorem dc_sweepA_spec (U : Array Pt) (S : List Nat) (frt : Frt)
+    (hlex : S.Pairwise (lexLt2 U)) (hS : ∀ s ∈ S, s < frt.size ∧ 1 ≤ fr frt s) :
+    ASpec U 2 S frt (sweepA U S frt) :=
+  sweepA_ASpec U S frt hlex hS
+
+/-- **C13 (divide-and-conquer sort, recursion)**: the front numbers computed by `ndHelperA` on the lexicographically
+sorted distinct points are the definition ranks — for every dimension `m ≥ 2` and every number of points; the depth
+budget `dcFuel` of the model is sufficient (the C++ recursion terminates in the same state). -/
+theorem dc_fronts_eq_rankSpec (U : List Pt) (m : Nat) (hm : 2 ≤ m) (hd : ∀ p ∈ U, p.length = m)
+    (hsorted : U.Pairwise (fun a b => lexLt a b = true)) :
+    ∀ i, i < U.length → fr (dcFronts U m) i = rankSpec U (U.getD i []) :=
+  dcFronts_eq_rankSpec U m hm hd hsorted
+
+/-- **C13 (BaseDCNonDominatedSort::operator())**: for every list of points of one dimension `m ≥ 2` — any size,
+duplicates, ties in single coordinates, dominated and collinear points — the modelled divide-and-conquer sort
+assigns to the `i`-th point the rank of the definition. -/
+theorem dcSort_eq_rankSpec (pts : List Pt) (m : Nat) (hm : 2 ≤ m) (hd : ∀ p ∈ pts, p.length = m) :
+    dcSort pts = pts.map (rankSpec pts) :=
+  DC.dcSort_eq_rankSpec pts m hm hd
+
+/-- **C13 (nonDominatedSort, "whichever internal algorithm is selected")**: whatever the size/dimension switch
+`m == 2 || n > 5000 || log(n)/log(3) < m + 1` decides, the ranks are those of the definition. -/
+theorem nds_eq_rankSpec (pts : List Pt) (m : Nat) (hm : 2 ≤ m) (hd : ∀ p ∈ pts, p.length = m) :
+    nds pts = pts.map (rankSpec pts) :=
+  DC.nds_eq_rankSpec pts m hm hd
+
+/-- `2 ≤ m` excludes only the one-objective case, which is outside the property (2 to 6 objectives): there the
+recursion of `ndHelperA` would reach `k - 1 = 0` -/
+example : (∀ p ∈ [[1, 1, 1], [1, 1, 2], [0, 2, 2], [1, 1, 1], [2, 2, 2]], List.length (α := Int) p = 3) ∧ 2 ≤ 3 := by decide
+
+/-! ## HypervolumeContributionMD as instantiated by the library (`nonDominatedSort` + `HypervolumeCalculator`) -/
+
+/-- **C13 (HypervolumeContributionMD, end to end)**: with the modelled `nonDominatedSort` and the modelled
+`HypervolumeCalculator` front end, the computed pairs are `(hypervolume lost by removing i, i)` for every finite
+set weakly dominating the reference point (`_partial`: not for 4 objectives, where the front end calls HOY). -/
+theorem contributionMD_library_eq_spec_partial (m : Nat) (S : List Pt) (r : Pt) (hm : 2 ≤ m) (h4 : m ≠ 4)
+    (hS : ∀ p ∈ S, p.length = m) (hr : r.length = m) (hle : ∀ p ∈ S, leAll p r = true) :
+    contribsMD nds hvDisp S r = (List.range S.length).map fun i => (contribSpec S r i, i) :=
+  contribsMD_eq_spec nds hvDisp m S r hS hr hle (fun Q hQ => DC.nds_eq_rankSpec Q m hm hQ)
+    (fun Q hQ hQr => hvDisp_eq_spec_partial Q r (fun p hp => (hQ p hp).trans hr.symm) hQr (by rw [hr]; exact h4))
+
+/-! ## Rational coordinates
+
+`Lemmas/Scale.lean`: every order-only notion (dominance, ranks, the sorts) is invariant under scaling by a positive
+integer and under translation; `hvSpec` is translation invariant and homogeneous of degree `m`.  `Lemmas/RatLift.lean`:
+for points with rational coordinates, `hvQ`/`rankQ` (computed with a common denominator) do not depend on the
+denominator chosen, agree with `hvSpec`/`rankSpec` on integer points, and `rankQ` satisfies the rank definition for
+the rational dominance relation. -/
+
+/-- `hvSpec` is homogeneous of degree `m` and translation invariant (all inputs, no hypotheses on dimensions for scaling) -/
+theorem hvSpec_scale_shift (d : Int) (hd : 0 < d) (t : Pt) (S : List Pt) (r : Pt) :
+    hvSpec (S.map (scalePt d)) (scalePt d r) = d.toNat ^ r.length * hvSpec S r ∧
+    ((∀ p ∈ S, p.length = t.length) → r.length = t.length → hvSpec (S.map (shiftPt t)) (shiftPt t r) = hvSpec S r) :=
+  ⟨hvSpec_scale hd S r, hvSpec_shift t S r⟩
+
+/-- the hypervolume of rational points is well defined: any two common denominators give the same value -/
+theorem hvQ_well_defined (d d' : Nat) (hd : 0 < d) (hd' : 0 < d') (S : List QPt) (r : QPt)
+    (hS : ∀ p ∈ S, Clears d p) (hr : Clears d r) (hS' : ∀ p ∈ S, Clears d' p) (hr' : Clears d' r) :
+    hvSpecQ d S r = hvSpecQ d' S r ∧ hvQ S r = hvSpecQ d S r :=
+  ⟨hvSpecQ_indep hd hd' S r hS hr hS' hr', hvQ_eq hd S r hS hr⟩
+
+/-- **C13 lifted to rational coordinates (sorting)**: run on the integer points obtained by multiplying with any
+common denominator `d`, the modelled `nonDominatedSort` returns the ranks `rankQ` of the rational points, and `rankQ`
+is one plus the highest rank among the rational dominators. -/
+theorem nds_rational (d : Nat) (hd : 0 < d) (m : Nat) (hm : 2 ≤ m) (S : List QPt)
+    (hS : ∀ p ∈ S, Clears d p) (hdim : ∀ p ∈ S, p.length = m) :
+    nds (S.map (toIntPt d)) = S.map (rankQ S) ∧
+    ∀ p, rankQ S p = 1 + ((S.filter fun q => dominatesQ q p).map (rankQ S)).foldl max 0 := by
+  refine ⟨?_, rankQ_spec S⟩
+  rw [DC.nds_eq_rankSpec (S.map (toIntPt d)) m hm (by
+    intro p hp; obtain ⟨q, hq, rfl⟩ := List.mem_map.mp hp; simpa [toIntPt] using hdim q hq)]
+  rw [List.map_map]
+  apply List.map_congr_left
+  intro p hp
+  rw [rankQ_eq hd S p hS (hS p hp)]; rfl
 
 end SharkVerif.C13
